@@ -121,7 +121,7 @@ class LoopBlock(ControlBlock):
             cls(start, body, cond or BoolValue(True, start),
                 CodeBlock((cont,), cont.span, preemptive=False) if cont
                 else CodeBlock.empty(start))
-        ), Span(start, body.span.end), preemptive=False)
+        ), Span(start, body.span.end), preemptive=body.preemptive)
 
     def evaluate(self, env):
         return LoopBlock(
